@@ -50,7 +50,7 @@ PROPERTIES["C12"] = dict(
     ],
 )
 
-PIPE_FILES = ["pipeline/zz_verif_pipe.go", "pipeline/zz_verif_p08.go", "pipeline/zz_verif_p01.go", "pipeline/zz_verif_p01b.go", "pipeline/zz_verif_p01x.go", "pipeline/zz_verif_p01r.go", "pipeline/zz_verif_p07.go", "config::config/zz_verif_export.go", "annotation::annotation/zz_verif_export.go", "assertion/global::global/zz_verif_export.go"]
+PIPE_FILES = ["pipeline/zz_verif_pipe.go", "pipeline/zz_verif_p08.go", "pipeline/zz_verif_p01.go", "pipeline/zz_verif_p01b.go", "pipeline/zz_verif_p01x.go", "pipeline/zz_verif_p01r.go", "pipeline/zz_verif_p13.go", "pipeline/zz_verif_p10.go", "pipeline/zz_verif_p07.go", "config::config/zz_verif_export.go", "annotation::annotation/zz_verif_export.go", "assertion/global::global/zz_verif_export.go"]
 INFER_FILES = ["inference/zz_verif_c05.go", "inference/zz_verif_c05l2.go", "inference/zz_verif_c06.go", "inference/zz_verif_c04.go", "inference/zz_verif_c15.go", "inference/zz_verif_c15m.go", "inference/zz_verif_c08.go", "inference/zz_verif_registry.go",
                "annotation::annotation/zz_verif_export.go"]
 
@@ -505,3 +505,21 @@ PROPERTIES["C01"]["runs"] += [
 ]
 PROPERTIES["C01"]["bounds"]["quick"] += "; a nil check of x inside an && / || expression used as a value, followed by the 28 one-statement programs (56)"
 PROPERTIES["C01"]["bounds"]["thorough"] += "; the boolean-value prefix followed by the 742 two-statement programs (1484)"
+
+_P13 = dict(pkg="accumulation", files=PIPE_FILES, entry="Harness_P13", quick=dict(params=dict(STMTS=2, COMPOUND=4)), thorough=dict(params=dict(STMTS=3, COMPOUND=4)), args=dict(sample_every=41, max_samples=16))
+PROPERTIES["C13"]["runs"] += [_P13]
+PROPERTIES["C13"]["explanation"] += (" Source level (P13): " + PIPE_EXPL + "every program of the C01 grammar is analysed with grouping off and on (and with a nolint comment on one dereference line); with grouping on every location of the "
+    "ungrouped report appears exactly once - as a diagnostic position or in one 'other place(s)' list - the stated count equals the list length, and nothing new appears (real messages, parsed by the harness).")
+PROPERTIES["C13"]["bounds"]["quick"] += "; source level: the two-statement programs of the C01 grammar x each dereference line"
+PROPERTIES["C13"]["bounds"]["thorough"] += "; source level: the three-statement programs"
+PROPERTIES["C11"]["runs"] += [dict(_P13, name="_nolint")]
+PROPERTIES["C11"]["explanation"] += (" Source level (P13): " + PIPE_EXPL + "a `//nolint:nilaway` comment (real comment map, real NoLint analyzer) on one dereference line of a program of the C01 grammar removes exactly the reports located on that line, with grouping off and on.")
+PROPERTIES["C11"]["bounds"]["quick"] += "; source level: the two-statement programs of the C01 grammar x each dereference line"
+PROPERTIES["C11"]["bounds"]["thorough"] += "; source level: the three-statement programs"
+_P10 = dict(pkg="accumulation", files=PIPE_FILES, entry="Harness_P10", quick=dict(params=dict(STMTS=2, COMPOUND=4)), thorough=dict(params=dict(STMTS=3, COMPOUND=4)), args=dict(sample_every=41, max_samples=16))
+PROPERTIES["C10"]["runs"] += [_P10]
+PROPERTIES["C10"]["explanation"] += (" Source level (P10): " + PIPE_EXPL + "the programs of the C01 grammar carry one doc annotation - nilable or nonnil on the callee's parameter, on its result (`result 0`), or nilable on the package-level pointer - "
+    "read by the real annotation parser; the annotation changes the oracle: a nilable site holds an arbitrary value (fresh symbolic bool), nil flowing into a nonnil site is an event of its own; "
+    "'event possible => reported', 'all dereferences nil-checked and no nonnil annotation => clean', and 'diagnostics only on dereference or flow-in lines' are decided per program.")
+PROPERTIES["C10"]["bounds"]["quick"] += "; source level: 910 programs (5 annotations x call first/last x one more statement)"
+PROPERTIES["C10"]["bounds"]["thorough"] += "; source level: 11830 programs (two more statements)"
